@@ -46,6 +46,35 @@ class Env:
     pass
 
 
+class CompStore:
+    """Component instances by model name.  In weak mode the harness keeps no strong reference: an instance lives
+    exactly as long as the world holds it, and a name that is attached again gets a fresh instance."""
+
+    def __init__(self, factory, names, weak):
+        import weakref
+        self._weakref = weakref
+        self.factory, self.weak = factory, weak
+        self.refs, self.strong = {}, {}
+        if not weak:
+            for n in names:
+                self.strong[n] = factory(n)
+
+    def __getitem__(self, n):
+        if not self.weak:
+            return self.strong[n]
+        r = self.refs.get(n)
+        o = r() if r is not None else None
+        if o is None:
+            o = self.factory(n)
+            self.refs[n] = self._weakref.ref(o)
+        return o
+
+    def items(self):
+        if not self.weak:
+            return list(self.strong.items())
+        return [(n, r()) for n, r in self.refs.items() if r() is not None]
+
+
 def pyid(e):
     """Model entity ids are integers; ids >= 100 stand for non-integer hashables."""
     if e >= 200:
@@ -64,12 +93,13 @@ def modelid(x):
 
 
 class WorldAdapter:
-    def __init__(self, desper, K, via=None, controllers=False):
+    def __init__(self, desper, K, via=None, controllers=False, weak=False):
         """via: list of access modes to rotate over behaviours: 'world' (plain World calls), 'ctrl' (Controller methods),
         'func' (module-level shorthands), 'ref' (ComponentReference / ProcessorReference descriptors).
         controllers: component classes derive from desper.Controller (C19: a Controller knows its entity and world)."""
         self.modes = list(via or ['world'])
         self.controllers = controllers
+        self.weak = weak        # C10: the world holds the only strong reference to attached components
         self.counter = 0
         self.desper = desper
         self.K = K
@@ -85,6 +115,7 @@ class WorldAdapter:
         env.fault = None
         env.killer = None
         env.remover = None
+        env.probe_killer = None
         env.w = desper.World()
         self.counter += 1
         self.mode = self.modes[self.counter % len(self.modes)]
@@ -92,6 +123,9 @@ class WorldAdapter:
 
         def lifecycle(cb):
             def m(self, entity, world):
+                if self is None:
+                    env.log.append((cb, 'None', modelid(entity)))
+                    return
                 if controllers and cb == 'on_add':
                     desper.Controller.on_add(self, entity, world)
                 if env.killer and env.killer[0] == self.name and cb == 'on_remove':
@@ -106,7 +140,12 @@ class WorldAdapter:
             return m
 
         def probe(self, tok):
-            env.log.append(('probe', self.name, tok))
+            env.log.append(('probe', 'None' if self is None else self.name, tok))
+            if self is not None and env.probe_killer and env.probe_killer[0] == self.name:
+                victim = env.probe_killer[1]
+                env.probe_killer = None
+                if env.w.get_components(victim):
+                    env.w.delete_entity(victim, immediate=True)
 
         base_ns = {'on_add': lifecycle('on_add'), 'on_remove': lifecycle('on_remove'), 'probe': probe,
                    '__bool__': lambda self: not getattr(self, 'falsy', False)}
@@ -115,14 +154,15 @@ class WorldAdapter:
             root = (desper.Controller,) if controllers else (object,)
             bs = tuple(env.types[b] for b in sorted(K['Bases'][t])) or root
             env.types[t] = type(t, bs, dict(base_ns) if bs == root else {})
-        env.comps = {}
-        for c in sorted(K['Comps']):
+        def make_comp(c):
             o = env.types[K['TypeOf'][c]]()
             o.name = c
             o.falsy = c in K.get('_Falsy', ())      # a component whose truth value is False (empty container-like)
             if K['Decl'][c] and not controllers:
                 o.__events__ = {ev: ev for ev in sorted(K['Decl'][c])}
-            env.comps[c] = o
+            return o
+
+        env.comps = CompStore(make_comp, sorted(K['Comps']), weak=self.weak)
         # a holder class with one reference descriptor per component / processor type (mode 'ref')
         env.holders = {}
         env.ctrls = {}
@@ -166,6 +206,7 @@ class WorldAdapter:
         env.fault = None
         env.killer = None
         env.remover = None
+        env.probe_killer = None
         kind = ['ok', 0, '-']
 
         def call():
@@ -213,6 +254,9 @@ class WorldAdapter:
             elif name == 'SetEnabled':
                 w.dispatch_enabled = args[0]
             elif name == 'Probe':
+                w.dispatch('probe', args[0])
+            elif name == 'ProbeKiller':
+                env.probe_killer = (args[1], pyid(args[2]))
                 w.dispatch('probe', args[0])
             else:
                 raise AssertionError('unknown action ' + name)
@@ -416,6 +460,10 @@ class WorldAdapter:
         exp['entities'] = tuple(sorted(e for e in rows if e not in dead))
         exp['enabled'] = post['enabled']
         exp['is_handler'] = post['reg']
+        if self.weak:
+            # a component the world no longer holds is gone, whatever registration a raising callback left behind
+            attached = {c for row in rows.values() for c in row.values()}
+            exp['is_handler'] = frozenset(x for x in post['reg'] if x in attached or x in K['Procs'])
         exp['self_handler'] = post['selfReg']
         procs = tuple(post['procs'])
         exp['processors'] = procs
